@@ -1,6 +1,7 @@
 package meta
 
 import (
+	"bytes"
 	"regexp/syntax"
 
 	"github.com/coregx/coregex/literal"
@@ -1380,11 +1381,35 @@ func selectLiteralStrategy(literals *literal.Seq, litAnalysis literalAnalysis) S
 	// The automaton reports literal occurrences and nothing else: like Teddy it
 	// cannot stand in for a pattern with assertions (\d\d\b has 100 complete
 	// literals and must still reject "11F"), and it has no line-anchor wrapper.
-	if litAnalysis.hasAhoCorasickLiterals && literals.AllComplete() && !litAnalysis.hasAnchors {
+	// Nor can it be trusted when one literal occurs inside another: the
+	// automaton (ahocorasick v0.3.0) then reports the inner literal, which ends
+	// first, instead of the one that starts first (abcd|bc on "xabcd": [2 4]
+	// for [1 5]).
+	if litAnalysis.hasAhoCorasickLiterals && literals.AllComplete() && !litAnalysis.hasAnchors &&
+		!hasInnerLiteral(literals) {
 		return UseAhoCorasick
 	}
 
 	return 0
+}
+
+// hasInnerLiteral reports whether some literal of the set occurs inside another
+// one at an offset greater than zero.
+func hasInnerLiteral(literals *literal.Seq) bool {
+	n := literals.Len()
+	for i := 0; i < n; i++ {
+		outer := literals.Get(i).Bytes
+		for j := 0; j < n; j++ {
+			inner := literals.Get(j).Bytes
+			if i == j || len(inner) == 0 || len(inner) >= len(outer) {
+				continue
+			}
+			if bytes.Contains(outer[1:], inner) {
+				return true
+			}
+		}
+	}
+	return false
 }
 
 // hasAnchorAssertions checks if the regex AST contains position assertions
